@@ -206,6 +206,9 @@ def run(tier, seed):
     fam |= {p * p for p in primes} | {p * q for p, q in zip(primes, primes[1:])}
     for k in range(1, 41):
         fam |= {2 ** k - 1, 2 ** k, 2 ** k + 1}
+    # semiprimes / products of three primes whose factors all exceed 2^15 (beyond trial division: found by rho / p-1 in any order)
+    big = [p for p in range(32771, 33200) if is_prime(p)][:8] + [65537, 65539, 100003, 100019, 282827, 634441, 999983, 1000003]
+    fam |= {a * b for i, a in enumerate(big) for b in big[i:]} | {2 * 20370319 * 23819, 32771 * 65537 * 100003, 3 * 32779 * 1000003}
     if not quick:
         base = 10 ** 12
         fam |= set(range(base - 30, base + 70))
